@@ -561,8 +561,27 @@ fn run_case_inner(case: &Case, viols: &mut Vec<Violation>, sv: &mut Vec<Violatio
             if ev.len() != kk || ratio.len() != kk {
                 viols.push(Violation::new("pca.explained_variance.wrong_length", format!("{} variances, {} ratios for {} components", ev.len(), ratio.len(), kk), cj()));
             } else {
-                let ok = (0..kk).all(|i| ev[i].is_finite() && (ev[i] - truth[i]).abs() / l1 <= TOL && (ev[i] - sigma[i] * sigma[i] / nm1).abs() <= TOL_INTERNAL * l1);
-                if !ok {
+                // two statements: (formula) explained_variance == sigma^2/(n-1) from the model's own singular
+                // values; (truth) that number is the sample variance of the projection on the component
+                let formula_ok = (0..kk).all(|i| ev[i].is_finite() && (ev[i] - sigma[i] * sigma[i] / nm1).abs() <= TOL_INTERNAL * l1);
+                let truth_ok = (0..kk).all(|i| ev[i].is_finite() && (ev[i] - truth[i]).abs() / l1 <= TOL);
+                if formula_ok && !truth_ok {
+                    // the formula is applied correctly, but the stored singular value is not the spread of the
+                    // data along the stored axis: (sigma, axis) is not a singular pair, i.e. this depends on the
+                    // solver having converged -> solver family (classified by the lobpcg re-run; generic otherwise)
+                    sv.push(Violation::new(
+                        "pca.explained_variance.wrong_value",
+                        format!(
+                            "explained_variance() = {} (= sigma^2/(n-1) of the stored singular values) but the projected training data has sample variances {} along the stored components (n = {}, eigenvalues {})",
+                            fmt_vec(&ev),
+                            fmt_vec(&truth),
+                            n,
+                            fmt_vec(&lam[..kk])
+                        ),
+                        cj(),
+                    ));
+                }
+                if !formula_ok {
                     // closed form of the known defect: divisor (number of components - 1) instead of (n - 1)
                     let wrong_div = kk as f64 - 1.0;
                     let matches = (0..kk).all(|i| {
